@@ -435,7 +435,7 @@ Definition show_link (g : grammar) (mm : list Build.ninfo) (c : config) (b : Mul
     match run g c (orc_of (fst ti)) false 200 (snd ti) with
     | Parsed (RTree (NT _ (t :: _))) =>
       match t with
-      | NT n _ => if Nat.eqb n nid then (if MultEndProofs.obj_tree_okb mm t then "P" else "Q") ++ sjoin ";" (map show_node (top_nodes g mm attr_id (conv_tree g (snd ti)) (RTree t))) else "noobj"
+      | NT n _ => if Nat.eqb n nid then (if Build.asg_placed mm false t then "P" else "Q") ++ sjoin ";" (map show_node (top_nodes g mm attr_id (conv_tree g (snd ti)) (RTree t))) else "noobj"
       | _ => "noobj"
       end
     | Parsed _ => "noobj"
